@@ -449,7 +449,7 @@ class C02(Check):
                         v["order_log"] = str(tmp / f"order{vi}.log")
                         # (the watchdog tolerates the silence of a deliberately slow source)
                         res = run_forked(lambda v=v, target=target: create(target, **v), workdir=tmp, wall_cap=180,
-                                         quiet_samples=int(2 * (v.get("slow") or 0) + 12) if v.get("slow") else 6)
+                                         quiet_samples=int(2 * (v.get("slow") or 0) + 16) if v.get("slow") else 16)
                         counters["parallel_runs"] = counters.get("parallel_runs", 0) + 1
                         if res["outcome"] == "quiescent":
                             bad("parallel-creation:hang", dict(variant={k: x for k, x in v.items() if k != "order_log"}, stack=res.get("stack", "")[-600:]))
